@@ -139,6 +139,36 @@ int HexBinaryDatatypeValidator::compare(const XMLCh* const lValue
 }
 
 /***
+ * 3.2.15.2 Canonical representation
+ *
+ * The canonical representation for hexBinary is defined by prohibiting
+ * certain options from the Lexical Representation (3.2.15.1).
+ * Specifically, the lower case hexadecimal digits ([a-f]) are not allowed.
+ ***/
+const XMLCh* HexBinaryDatatypeValidator::getCanonicalRepresentation(const XMLCh*         const rawData
+                                                                  ,       MemoryManager* const memMgr
+                                                                  ,       bool                 toValidate) const
+{
+    MemoryManager* toUse = memMgr? memMgr : getMemoryManager();
+
+    if (toValidate)
+    {
+        HexBinaryDatatypeValidator* temp = (HexBinaryDatatypeValidator*) this;
+
+        try
+        {
+            temp->checkContent(rawData, 0, false, toUse);
+        }
+        catch (...)
+        {
+            return 0;
+        }
+    }
+
+    return HexBin::getCanonicalRepresentation(rawData, toUse);
+}
+
+/***
  * Support for Serialization/De-serialization
  ***/
 
